@@ -220,4 +220,31 @@ example : convertInt "uint64" "0010".toList = some (some 10) ∧ convertInt "uin
     convertInt "fixed64" "1_000".toList = some none ∧ convertInt "uint64" "08".toList = some (some 8) := by decide
 example : bindSingular (fun s : Str => some s) ["first".toList, "second".toList] = some (some "first".toList) := by decide
 
+/-- the branch of the emitted `bindQueryParams` for a parameter without occurrences, regenerated. -/
+theorem query_absent_branch_transcribed :
+    Gen.Pipeline.queryAbsentTest = "len(values) == 0" ∧ Gen.Pipeline.queryAbsentRequiredTest = "param.Required" ∧
+    Gen.Pipeline.queryAbsentRequiredReturns = true ∧ Gen.Pipeline.queryAbsentOtherwise = "continue" := by decide
+
+/-- **a missing required query parameter is refused**, for every conversion — and nothing about the bound field
+(its kind, its `optional` keyword) enters the decision. -/
+theorem missing_required_query_rejected {α β : Type} (conv : β → Option α) :
+    bindQueryParam true conv ([] : List β) = .rejected := by
+  have h1 : (Gen.Pipeline.queryAbsentTest == "len(values) == 0") = true := by decide
+  have h2 : (Gen.Pipeline.queryAbsentRequiredTest == "param.Required") = true := by decide
+  have h3 : Gen.Pipeline.queryAbsentRequiredReturns = true := by decide
+  simp [bindQueryParam, h1, h2, h3]
+
+/-- a missing parameter that is not required leaves the field alone. -/
+theorem missing_optional_query_skipped {α β : Type} (conv : β → Option α) :
+    bindQueryParam false conv ([] : List β) = .absent := by
+  have h1 : (Gen.Pipeline.queryAbsentTest == "len(values) == 0") = true := by decide
+  simp [bindQueryParam, h1]
+
+/-- a parameter that occurs is bound to the conversion of its FIRST occurrence, or refused when that does not convert,
+whether it is required or not. -/
+theorem present_query_first_occurrence {α β : Type} (required : Bool) (conv : β → Option α) (t : β) (rest : List β) :
+    bindQueryParam required conv (t :: rest) = (match conv t with | some v => .bound v | none => .rejected) := by
+  simp only [bindQueryParam, List.isEmpty_cons, Bool.false_and, bindSingular]
+  cases conv t <;> simp
+
 end Sebuf.C02
